@@ -125,12 +125,12 @@ impl C04 {
             };
             if let Some(st) = sys.states.iter().find(|s| ctx.get_symbol_name(s.symbol) == Some(base.as_str())) {
                 let allowed = match step {
-                    None => st.is_const() && (entry > 0 || st.init.is_none()),
+                    None => (st.next == Some(st.symbol)) && (entry > 0 || st.init.is_none()),
                     Some(k) => st.next.is_none() || (k == entry && (entry > 0 || st.init.is_none())),
                 };
                 if !allowed {
                     let why = if step.is_none() { "a constant state with an init value is declared free instead of being defined by its init expression".to_string() } else { format!("state `{base}` is declared as a free constant at step {} although the system determines its value there", step.unwrap()) };
-                    fail(sh, format!("C04|unconstrained-state|entry{entry}|{}", if st.is_const() { "const-state" } else { "state" }), format!("`{name}`: {why}"));
+                    fail(sh, format!("C04|unconstrained-state|entry{entry}|{}", if (st.next == Some(st.symbol)) { "const-state" } else { "state" }), format!("`{name}`: {why}"));
                     return;
                 }
             }
